@@ -27,15 +27,17 @@ def decoded_subset(names, x, xi):
     return frozenset(n for n in names if not (xi[n] == x[n]))
 
 
-def group_outputs(model, subset, inputs, results, x, names):
-    """Pristine outputs of one imputation group; verifies the logged results against the twin."""
+def group_outputs(model, subset, inputs, results, x, names, unique=True):
+    """Pristine outputs of one imputation group; verifies the logged results against the twin.
+    unique=False: stream values repeat (real data), so an imputed value may equal the instance's own value and the decoded
+    difference set is only required to lie inside the requested subset."""
     if not inputs:
         raise Mismatch("empty-group", "imputer evaluated the model 0 times")
     subs = {decoded_subset(names, x, xi) for xi in inputs}
     if subset is not None:
         want = frozenset(subset)
         for s in subs:
-            if s != want:
+            if (s != want) if unique else not (s <= want):
                 raise Mismatch("imputed-set", f"model input differs from x on {sorted(map(repr, s))}, "
                                               f"imputer was asked for {sorted(map(repr, want))}")
     elif len(subs) != 1:
@@ -72,6 +74,7 @@ class SageRef:
         self.marg, self.mod = RefStat(dyn, alpha), RefStat(dyn, alpha)
         self.pred = RefMulti(dyn, alpha)
         self.explained = 0
+        self.unique = True
         self.last_order = None
         self.last_contrib = None
 
@@ -91,7 +94,7 @@ class SageRef:
         remaining = frozenset(names)
         contrib, order = {}, []
         for subset, inputs, results in groups:
-            s, outs = group_outputs(self.model, subset, inputs, results, x, names)
+            s, outs = group_outputs(self.model, subset, inputs, results, x, names, self.unique)
             diff = remaining - s
             if len(diff) != 1 or not (s < remaining):
                 raise Mismatch("chain", f"imputation sets are not a chain: {sorted(map(repr, remaining))} -> {sorted(map(repr, s))}")
@@ -123,6 +126,7 @@ class PfiRef:
         self.model, self.loss = model, loss
         self.imp = {n: RefStat(dyn, alpha) for n in names}
         self.var = {n: RefStat(dyn, alpha) for n in names}
+        self.unique = True
         self.last_contrib = None
 
     def call(self, x, y, log, n_used):
@@ -133,7 +137,7 @@ class PfiRef:
         ol = self.loss.one(y, self.model.one(x))
         byf = {}
         for subset, inputs, results in groups:
-            s, outs = group_outputs(self.model, subset, inputs, results, x, names)
+            s, outs = group_outputs(self.model, subset, inputs, results, x, names, self.unique)
             if len(s) != 1:
                 raise Mismatch("pfi-subset", f"PFI evaluation replaced {sorted(map(repr, s))}, expected exactly one feature")
             f = next(iter(s))
